@@ -33,6 +33,8 @@ pub enum Verdict {
     },
     Err {
         sols: BTreeMap<u16, SolErr>,
+        /// the failing solution indices in the order the error lists them (C02 compares it)
+        order: Vec<u16>,
     },
     Other(String),
 }
@@ -104,7 +106,7 @@ pub fn matches(exp: &Expect, act: &Verdict) -> Result<(), String> {
             }
             Ok(())
         }
-        (Expect::Err { sols }, Verdict::Err { sols: s2 }) => {
+        (Expect::Err { sols }, Verdict::Err { sols: s2, .. }) => {
             let ka: Vec<_> = sols.keys().collect();
             let kb: Vec<_> = s2.keys().collect();
             if ka != kb {
@@ -139,7 +141,7 @@ pub fn matches(exp: &Expect, act: &Verdict) -> Result<(), String> {
             },
             match act {
                 Verdict::Ok { .. } => "Ok".to_string(),
-                Verdict::Err { sols } => format!("Err{sols:?}"),
+                Verdict::Err { sols, .. } => format!("Err{sols:?}"),
                 Verdict::Other(s) => s.clone(),
             }
         )),
